@@ -767,6 +767,11 @@ where {
                     }
                 }
                 (Ordering::Less, None, _) => {
+                    if a.row_count() == 0 {
+                        // Extending a single row to no rows leaves nothing to call with
+                        debug_assert_eq!(b.row_count(), 1);
+                        return Ok(());
+                    }
                     debug_assert_eq!(a.row_count(), 1);
                     a.shape.remove(0);
                     for b in b.into_rows() {
@@ -786,6 +791,11 @@ where {
                     }
                 }
                 (Ordering::Greater, _, None) => {
+                    if b.row_count() == 0 {
+                        // Extending a single row to no rows leaves nothing to call with
+                        debug_assert_eq!(a.row_count(), 1);
+                        return Ok(());
+                    }
                     debug_assert_eq!(b.row_count(), 1);
                     b.shape.remove(0);
                     for a in a.into_rows() {
